@@ -49,7 +49,7 @@ PROPERTIES = {
     "C02": {
         "rule": "rapidcheck: closed mesh (6 families, refinements, deformations, rigid placement up to 1000 sizes from the origin, um and "
                 "unit scale, permuted numbering), 1-4 face types with independent zero/non-zero tension and bending modulus, random "
-                "per-face labels, bulk / area-elasticity / angle-regularisation moduli over decades, target volume != volume. Each "
+                "per-face labels, bulk / area-elasticity / angle-regularisation moduli over decades, target volume != volume; 1/3 of the cells first undergo 3-9 real edge collapses / splits (public local_mesh_refiner) that leave unused node and face slots, the state of most cells in a running simulation (covariance clause skipped for those). Each "
                 "force term is isolated through the cell_tester friend and judged against closed-form gradients (volume gradient "
                 "cross-checked by finite differences). Non-trivial = >= 2 face types present, pressure != 0, some bending modulus != 0 "
                 "and the cell farther than one size from the origin; distinct = hash of the serialised case.",
@@ -142,7 +142,7 @@ PROPERTIES = {
     "C06": {
         "rule": "rapidcheck: tissues of 2-7 cells (chain, cluster, cells inside an ECM shell, nucleus inside a cell, apart) of mixed classes, "
                 "icosphere level 1-2, um / unit / x12 scale, placed up to 3000 sizes from the origin and (1/2 of the cases) a further 1e4-1e7 edge lengths away; l_min, repulsion and adhesion "
-                "cut-offs log-uniform in [0.05, 3] edge lengths; node normals either in the iteration-0 state or computed; for contact "
+                "cut-offs log-uniform in [0.05, 3] edge lengths; node normals either in the iteration-0 state or computed; in half of the tissues every cell first undergoes real edge collapses / splits that leave unused node and face slots; for contact "
                 "models 0, 1, 2. Non-trivial = a node-face pair within the cut-off (independent kernel), tissue spanning >= 27 voxels, "
                 "and a contact force or a pair whose node and face lie in different voxels; distinct = hash of the case.",
         "min_nontrivial": 30,
@@ -153,7 +153,7 @@ PROPERTIES = {
                  for v in ("san", "san-cm0", "san-cm2")],
     },
     "C07": {
-        "rule": "rapidcheck, two subs per contact model. 'tissue': tissues as in C06 (level 1), zero initial forces; 1/3 of the tissues are distorted by an affine map (stretch up to 3, squeeze to 0.35, shear up to 1.2: obtuse and needle-shaped triangles); contacts are computed by 1, 2, 3 or 8 threads; half of the cases then remove a generated subset of the cells the way the solver does (down to one survivor in 2/3 of them) and run the SAME model instance again, all whole-tissue clauses re-checked; 'pair': one probe node "
+        "rule": "rapidcheck, two subs per contact model. 'tissue': tissues as in C06 (level 1), zero initial forces; 1/3 of the tissues are distorted by an affine map (stretch up to 3, squeeze to 0.35, shear up to 1.2: obtuse and needle-shaped triangles); contacts are computed by 1, 2, 3 or 8 threads; in half of the tissues every cell first undergoes real edge collapses / splits that leave unused node and face slots; half of the cases then remove a generated subset of the cells the way the solver does (down to one survivor in 2/3 of them) and run the SAME model instance again, all whole-tissue clauses re-checked; 'pair': one probe node "
                 "(apex of a thin tetrahedron) at signed depth in (-cutoff, cutoff) over the centroid region of one face of a tetrahedron "
                 "60 cut-offs wide, for all 25 ordered class pairs, both sides, both node-normal states, repulsion strength over 5 decades, "
                 "random rigid placement and scale. Non-trivial = a case in which a contact force or coupling was created; distinct = hash of the case.",
